@@ -148,4 +148,37 @@ PROPS = {
         "not_decided": ["the coordinate function of logarithmic grids is used through an uninterpreted contract (its node/monotonicity clauses are not yet discharged under C15)"],
         "assumptions": COMMON_ASSUMPTIONS + ["indexer entries of the evaluated labels are valid positions (feasible states)"],
     },
+    "C11": {
+        "contracts": [
+            "C11.affine-utility-step",
+            "C11.linear-expectation",
+            "C11.beta-zero",
+            "C11.horizon-independence",
+            "lcm.solve_brute.solve",
+            "lcm.model_functions.get_utility_and_feasibility_function",
+            "C01.period-step",
+        ],
+        "families": {
+            "quick": "lemmas: arbitrary (uninterpreted) choice sets, utilities, continuation values, a > 0, b, beta, horizons; code-facing contracts: solve loop for every number of periods, utility-and-feasibility function and period step on Skel-quick",
+            "thorough": "same lemmas; code-facing contracts on Skel-thorough",
+        },
+        "not_decided": ["rounding", "the laws are corollaries: lemmas over the Bellman operator (all inputs) composed with C01's contracts (per skeleton); interpolation of an affinely transformed array is covered through the linear-expectation lemma only for weights summing to one (multilinear weights do)"],
+        "assumptions": COMMON_ASSUMPTIONS + ["rows of every transition array sum to one (precondition of the affine law)", "the feasible set of every state is non-empty"],
+    },
+    "C12": {
+        "contracts": [
+            "lcm.user_model.Model",
+            "C12.rejected-when-functions-are-created",
+            "C12.accepted-specifications-solve",
+            "lcm.grids.LinspaceGrid",
+            "lcm.grids.LogspaceGrid",
+            "lcm.grids.DiscreteGrid",
+        ],
+        "families": {
+            "quick": "13 rule cases on the consumption-saving skeleton (n_periods symbolic: every integer), 3 late-rejection skeletons, every skeleton of Skel-quick + 3 known-finding skeletons for 'accepted => solves'; grid families of C16",
+            "thorough": "same with Skel-thorough and the thorough grid families",
+        },
+        "not_decided": ["'accepted => simulates' is decided under C02/C13 for the skeletons covered there", "combinations of several rule violations at once (each rule is checked on its own)"],
+        "assumptions": COMMON_ASSUMPTIONS,
+    },
 }
